@@ -76,12 +76,13 @@ Qed.
 (** * unfolding equations *)
 Section Unfold.
 Variable p : program.
+Variables tord bord : state -> node -> list node -> list node.
 
-Notation mquery := (query_for p None).
-Notation mexecute := (execute p None).
-Notation meval := (eval p None).
-Notation mrepair := (repair p None).
-Notation mbackward := (backward p None).
+Notation mquery := (query_for_o p None tord bord).
+Notation mexecute := (execute_o p None tord bord).
+Notation meval := (eval_o p None tord bord).
+Notation mrepair := (repair_o p None tord bord).
+Notation mbackward := (backward_o p None tord bord).
 
 Section Tfc.
 Variables (f : nat) (stk : list node).
@@ -147,7 +148,7 @@ Definition mq_reg (c : caller) (fr : option frame) (n : node) : res (option fram
   end.
 Definition mq_tfc (f : nat) (stk : list node) (c : caller) (sp : slow) (n : node) (s : state) : res state :=
   match c, sp, get_info s n with
-  | (CUser | CRepairFirewall), SRepair, Some i => mtfc f stk (i_tfc i) s
+  | (CUser | CRepairFirewall), SRepair, Some i => mtfc f stk (tord s n (i_tfc i)) s
   | _, _, _ => Ok s
   end.
 Definition has_pending (s : state) (n : node) : bool :=
@@ -233,7 +234,7 @@ Lemma execute_S : forall f stk c n rc fr0 s,
              else if tfc_changed then propagate_t (S f * 4) s1 [n] else Ok s1 in
   Ok (marks, set_computed s2 n v fr2 changed rc).
 Proof.
-  intros. cbn [execute]. unfold mx_tfc_changed, mx_changed, fx_value, fx_prev, x_pedantic, c_follow.
+  intros. cbn [execute_o]. unfold mx_tfc_changed, mx_changed, fx_value, fx_prev, x_pedantic, c_follow.
   destruct c; destruct (get_info s n); reflexivity.
 Qed.
 
@@ -315,16 +316,16 @@ Lemma repair_S : forall f stk c n s,
       | DClean true cleaned => Ok (marks, clean_query s1 n cleaned (Some (new_tfc_of s1 i)))
       end
   end.
-Proof. intros. cbn [repair]. destruct (get_info s n); reflexivity. Qed.
+Proof. intros. cbn [repair_o]. destruct (get_info s n); reflexivity. Qed.
 
 Definition proj_callers (s : state) (n : node) : list node :=
   filter (fun x => kind_eqb (nkind x) KProjection) (callers_of s n).
 
 Lemma backward_S : forall f stk n s,
   mbackward (S f) stk n s =
-  let* s1 := mbp f stk (proj_callers s n) s in Ok (clear_pending s1 n).
+  let* s1 := mbp f stk (bord s n (proj_callers s n)) s in Ok (clear_pending s1 n).
 Proof.
-  intros. cbn [backward]. unfold proj_callers.
+  intros. cbn [backward_o]. unfold proj_callers.
   match goal with |- match ?X with _ => _ end = match ?Y with _ => _ end => change X with Y; destruct Y end;
     try reflexivity.
   unfold clear_pending. destruct (get_info a n); reflexivity.
